@@ -29,7 +29,7 @@ SPEC = {
     "floors": {"TestSeqUnlimited/unknown_not_first": 0.15, "TestSeqFinite/zero_token_part": 0.2, "TestConcFinite/left_callers": 0.3,
                "TestConcFinite/callers_ge_4": 0.3, "TestInterleavings/next_upgrade_contended": 0.1,
                "TestInterleavings/left_upgrade_point": 0.05, "TestImplicitStart/single_elementary_profile": 0.3,
-               "TestImplicitStart/callers_ge_4": 0.4, "TestSeqUnlimited/left_negative_seen": 0.1},
+               "TestImplicitStart/callers_ge_4": 0.3, "TestSeqUnlimited/left_negative_seen": 0.1},
     "manifest": {
         "technique": "model-based property testing (rapid): manual-chaining reference, linearisability windows, harness-scheduled interleavings at hook yield points",
         "text": ("Schedule trees are generated and compared with a reference that drains each elementary part alone from the finish "
